@@ -1487,7 +1487,7 @@ impl<'fd, B: BufSlice<N>, const N: usize> SendAllVectored<'fd, B, N> {
                     }
                 }
 
-                if iovecs[N - 1].len() == 0 {
+                if iovecs.iter().all(|iovec| iovec.len() == 0) {
                     // Send everything.
                     return Poll::Ready(Ok(bufs));
                 }
